@@ -180,7 +180,7 @@ def evaluate(ctx, rng, tier, focus, budget, broken):
     # very long paths at the finest resolutions, evaluated in-process by the harness (`pathcheck`): an error that
     # accumulates per sample (seeded change C14g: an epsilon added to the per-sample step instead of the end point)
     # shows only beyond ~1e5 cells.  A few on every run, many more when an obligation or the correspondence is broken.
-    want = 4 if (tier == "quick" and budget <= 1) else 40
+    want = (4 if budget <= 1 else 12) if tier == "quick" else 40    # one harness run stays below the per-run timeout
     cand = []
     for _ in range(want * 6):
         res = rng.choice([13, 14, 15])
